@@ -232,6 +232,10 @@ func vf26GenSched(rt *rapid.T) *vf26Sched {
 	s.Closer = []string{"", "", "", "Close", "Close", "CloseWrite"}[rapid.IntRange(0, 5).Draw(rt, "closer")]
 	if s.Closer != "" {
 		s.CStart = vf26GenStart(rt, "closer_start", true)
+		if s.Closer == "CloseWrite" && rapid.IntRange(0, 3).Draw(rt, "closewrite_late") != 0 {
+			// CloseWrite before completion is a no-op (errEarlyCloseWrite): bias it towards the completed connection
+			s.CStart.Kind, s.CStart.K = []string{vf26StartHS0, vf26StartHSAll}[rapid.IntRange(0, 1).Draw(rt, "closewrite_when")], 0
+		}
 	}
 	s.Gran = rapid.SliceOfN(rapid.OneOf(rapid.Just(0), rapid.IntRange(1, 5), rapid.IntRange(1, 600)), 1, 4).Draw(rt, "pipe_max_read")
 	s.Yields = rapid.SliceOfN(rapid.OneOf(rapid.Just(0), rapid.IntRange(0, 30)), 1, 4).Draw(rt, "pipe_read_yields")
